@@ -658,7 +658,8 @@ RULE = ("cases: (a) ser.route — a generated dataclass tree (Serializable / Fro
         "annotations`, user enums / dataclasses named like things `typing` exports (Type, Text, Container, Counter, ...), list[...] / List[...]; "
         "(b) ser.decode lenient — the generator's own plain encoding of the same instance with ints/floats/bools at "
         "int/float/bool-typed positions rewritten as strings, decoded with the real from_dict; (c) ser.decode union-member — a "
-        "primitive that is an instance of one Union member given to the real Union decoder; (d) ser.decode malformed — random "
+        "primitive that is an instance of one Union member given to the real Union decoder (must come back unchanged), and primitives "
+        "of a non-member type (correspondence only: members are tried in declaration order); (d) ser.decode malformed — random "
         "raw values against random types (correspondence only); (e) ser.encode / ser.todict unit cases. Non-trivial = a route or "
         "lenient case whose class has >= 2 fields or a container/nested field, or a unit case on a container; distinct by canonical JSON.")
 ASSUMPTIONS = [
@@ -801,6 +802,15 @@ def gen(rng, tier):
         member = rng.choice(U["alts"])
         raw = {"t": "none"} if member["k"] == "none" else rng.choice(prim_vals[member["k"]])
         yield {"op": "ser.decode", "case": {"kind": "union-member", "ty": U, "raw": raw, "expect": raw}}
+    # (c') raw primitives whose exact type is NOT a member: they go through the members in declaration order
+    #      (correspondence only — the property does not say what they become)
+    for _ in range(150 if quick else 2500):
+        U = gen_union(rng)
+        members = {a["k"] for a in U["alts"]}
+        others = [k for k in prim_vals if k not in members]
+        if not others:
+            continue
+        yield {"op": "ser.decode", "case": {"kind": "union-nonmember", "ty": U, "raw": rng.choice(prim_vals[rng.choice(others)])}}
     # (d) malformed stream
     n_mal = 500 if quick else 12000
     for _ in range(n_mal):
@@ -1151,25 +1161,6 @@ def shrink(case):
 # open findings: narrow signatures
 
 
-def _union_lossy(d):
-    """The differing node is annotated with a Union of >= 2 non-None members, the expected value is a primitive that is an
-    instance of one member, and what came back is a primitive of ANOTHER member's type (an earlier decoder took it)."""
-    T = d.get("ty") or {}
-    if T.get("k") != "union":
-        return False
-    alts = [a["k"] for a in T["alts"] if a["k"] != "none"]
-    e, g = d["exp"], d["got"]
-    prim = ("int", "float", "str", "bool")
-    return (len(alts) >= 2 and e.get("t") in prim and isinstance(g, dict) and g.get("t") in prim and g["t"] != e["t"]
-            and e["t"] in alts and g["t"] in alts and alts.index(g["t"]) < alts.index(e["t"]))
-
-
-def f_union(case, obs, fail):
-    ds = fail.get("diffs") or []
-    return fail.get("clause") in ("roundtrip", "lenient", "union-member") and bool(ds) and fail.get("n_diffs", len(ds)) == len(ds) \
-        and all(_union_lossy(d) for d in ds)
-
-
 def _has_tuple_key(T):
     return has_kind(T, lambda t: t["k"] == "dict" and t["key"]["k"] in ("tuple", "vtuple"))
 
@@ -1200,37 +1191,18 @@ def _nonempty_tuple_key_dict(T, V):
     return False
 
 
-def _has_huge_int(V):
-    t = V["t"]
-    if t == "int":
-        return abs(int(V["v"])) >= 2**1024 - 2**970
-    if t in ("list", "tuple", "set"):
-        return any(_has_huge_int(x) for x in V["v"])
-    if t == "dict":
-        return any(_has_huge_int(k) or _has_huge_int(x) for k, x in V["v"])
-    if t == "inst":
-        return any(_has_huge_int(f[1]) for f in V["v"])
-    return False
-
-
-def f_int_overflow(case, obs, fail):
-    """An int beyond the float range in the instance: `_decode_int` evaluates float(v) for its warning test -> OverflowError."""
-    return (case["op"] == "ser.route" and fail.get("clause") == "roundtrip" and fail.get("exc") == "OverflowError"
-            and _has_huge_int(case["case"]["x"]))
-
-
 FINDINGS = {
-    "C05-union-order-lossy": f_union,
     "C05-tuple-key-dict-yaml": f_tuple_key_yaml,
-    "C05-int-beyond-float-range": f_int_overflow,
 }
 
 MANIFEST = {
-    "text": ("Proof, partial (named gaps: Union members whose encoded value an earlier member's decoder accepts — D14; dicts "
-             "with tuple keys on the YAML routes; ints beyond the float range). Lean theorem c05_roundtrip: for every type of the "
-             "grammar (any nesting depth), every well-typed value and every transport (direct/pickle, JSON with key "
-             "stringification, YAML), from_dict(transport(to_dict(x))) = x with every node of the declared Python type, under the "
-             "decidable side condition UnionSafe; the unrestricted statement is refuted by concrete witnesses. The model of "
+    "text": ("Proof, full on the property's grammar (Optional[T] and Unions of primitives; named gap outside it: dicts with tuple "
+             "keys on the YAML routes). Lean theorems c05_roundtrip / c05_instance: for every type of the grammar (any nesting depth), "
+             "every well-typed value and every transport (direct/pickle, JSON with key stringification, YAML), "
+             "from_dict(transport(to_dict(x))) = x with every node of the declared Python type; c05_union_member_unchanged: a value that "
+             "is an instance of a member of a Union of primitives comes back unchanged whatever the member order. For Unions with "
+             "non-primitive members the same holds under the decidable side condition UnionSafe (c05_roundtrip_partial; the "
+             "unrestricted statement is refuted by a Union[str, Path] witness). The model of "
              "encode / get_decoding_fn / from_dict is tied to the code by four correspondence ops (encode, to_dict, "
              "get_decoding_fn(t)(raw) incl. lenient and malformed raw values, and all seven real routes end-to-end) and the "
              "property's own statement is evaluated on every real observation."),
